@@ -17,13 +17,14 @@ pub fn plan() -> Plan {
         meta: Meta {
             property: "C03",
             level: "fault_enumeration",
-            rule: "a random history (puts, deletes incl. deletes into already indexed blobs, rotations, dumps, restarts) is run against the real Storage and the model, all indexes are dumped, the storage is closed and the directory is kept as a base. For each damage case the base is copied, index files are damaged and the real init / init_lazy runs: init must succeed, the whole query surface (read, contains, read_all*, read_with, records_count) must equal the answers before the close (= model), and next_blob_id must be above every id ever present. Damage classes enumerated per index file: remove; truncate at every structure boundary +-1 (header end, filter end, tree-meta end, each inner node, leaves start, each 4 KiB leaf block, last header, file end) + 32 random lengths (thorough: every byte length); zero-length; header-only; written bit cleared (alone and with truncation = half-written); stale copy (earlier dump of the same index describing a shorter blob, captured before a delete-into-closed); all 2^n subsets of removed files for n<=4 blobs. Second scenario for ids: newest blob quarantined at one restart, then further restarts - new blobs must not reuse its id. Non-trivial = damage case in which at least one index file was actually damaged and the storage held >=2 blobs or a deletion marker in a closed blob; distinct = hash(history, case).",
+            rule: "a random history (puts, deletes incl. deletes into already indexed blobs, rotations, dumps, restarts) is run against the real Storage and the model, all indexes are dumped, the storage is closed and the directory is kept as a base. For each damage case the base is copied, index files are damaged and the real init / init_lazy runs: init must succeed, the whole query surface (read, contains, read_all*, read_with, records_count) must equal the answers before the close (= model; a quarter of the cases off-loads all filter buffers right after the reopen), and next_blob_id must be above every id ever present. Damage classes enumerated per index file: remove; truncate at every structure boundary +-1 (header end, filter end, tree-meta end, each inner node, leaves start, each 4 KiB leaf block, last header, file end) + 32 random lengths (thorough: every byte length); zero-length; header-only; written bit cleared (alone and with truncation = half-written); stale copy (earlier dump of the same index describing a shorter blob, captured before a delete-into-closed); all 2^n subsets of removed files for n<=4 blobs. Second scenario for ids: newest blob quarantined at one restart, then further restarts - new blobs must not reuse its id. Non-trivial = damage case in which at least one index file was actually damaged and the storage held >=2 blobs or a deletion marker in a closed blob; distinct = hash(history, case).",
             assumptions: vec!["index bit flips are outside the statement (only missing/truncated/half-written/stale)", "verdict holds for the histories and damage cases generated for this seed"],
         },
         shards: 16,
         soft_s: (28, 600),
         exhaustive: None,
         min_evaluations: 200,
+        extra: None,
     }
 }
 
@@ -116,7 +117,7 @@ struct CaseOut {
     accepted: u64,
 }
 
-async fn run_case<const N: usize>(d: &mut Driver<N>, lazy: bool, ids_ever_max: usize) -> CaseOut {
+async fn run_case<const N: usize>(d: &mut Driver<N>, lazy: bool, offload: bool, ids_ever_max: usize) -> CaseOut {
     let mut out = CaseOut { mismatch: None, regenerated: 0, accepted: 0 };
     tap::arm(&d.dir, false, true);
     let r = d.open(lazy).await;
@@ -138,6 +139,12 @@ async fn run_case<const N: usize>(d: &mut Driver<N>, lazy: bool, ids_ever_max: u
     if let Err(m) = r {
         out.mismatch = Some(m);
         return out;
+    }
+    if offload {
+        // answers must not depend on where the filter bits are held after the reopen
+        use pearl::BloomProvider;
+        let s = d.storage.as_mut().unwrap();
+        let _ = s.offload_buffer(usize::MAX, 2).await;
     }
     if let Err(m) = d.check(S_ALL_QUERIES | S_RECCOUNT).await {
         out.mismatch = Some(m);
@@ -325,7 +332,11 @@ fn history_eval<const N: usize>(ctx: &Ctx, sh: &mut Shard, rng: &mut Rng, cfg: &
         let mut dd: Driver<N> = Driver::new(work.clone(), cfg.clone(), hid);
         dd.model = model.clone();
         dd.model.restart(lazy);
-        let res = block_on_catch(cfg.mt, run_case(&mut dd, lazy, ids_max));
+        let offload = ci % 4 == 2;
+        if offload {
+            sh.add("reopen_then_offload_filters", 1);
+        }
+        let res = block_on_catch(cfg.mt, run_case(&mut dd, lazy, offload, ids_max));
         sh.evaluations += 1;
         sh.add(if lazy { "reopen_lazy" } else { "reopen_eager" }, 1);
         let case_desc: Vec<String> = case.iter().map(|(id, d)| format!("{}:{:?}", id, d)).collect();
